@@ -68,6 +68,11 @@ def build_session(rng, tmp, kind, metric, use_pre, fresh_default):
     if kind == "unsup":
         s.call("propagate_labels", s.objs[o2]["m"].propagate_labels)
     s.load_again(o, 1, fresh, spelling=(s.ctr % 2 == 0))
+    # ... and the original, which has been used since (relevance marks from predicting; for the unsupervised model its labels are
+    # rewritten), is saved once more to the same file: the file then holds the model as it is now
+    if kind == "unsup":
+        s.call("propagate_labels", s.objs[o]["m"].propagate_labels)
+    s.save_again_and_load(o, 1, fresh)
     return s
 
 
@@ -98,7 +103,7 @@ def run(tier, seed):
         if clause[0] not in CLAUSES:
             continue
         rep.violation("save/load", clause[0], meta["kind"], {"event_index": l, "event": {k: v for k, v in e.items() if k != "arr"}, "session": meta, "seed": rep.seed, "tier": tier})
-    rep.cov["rule"] = "four kinds x metrics x with/without pre-computed distances; save must leave the full projected state unchanged, a freshly constructed model (default or same constructor arguments) after load must have the same full state, and both must predict equally on queries and on the training set; the file loaded a second time (after the first copy was used) still yields the saved state"
+    rep.cov["rule"] = "four kinds x metrics x with/without pre-computed distances; save must leave the full projected state unchanged, a freshly constructed model (default or same constructor arguments) after load must have the same full state, and both must predict equally on queries and on the training set; the file loaded a second time (after the first copy was used) still yields the saved state; the original, used since, saved once more to the same file and loaded gives its current state"
     rep.assumptions = ["TLC", "full state = every Node/Subgraph attribute, model configuration, pre_distances content and the registry name distance_fn resolves to", "pickle internals are not modelled"]
     return rep.finish()
 
